@@ -335,12 +335,14 @@ func sequential(c *vf.Ctx, si int) {
 				}
 			}
 		default: // reorganisation that rewinds account state: a longer branch without the last d blocks' txs
-			if len(chain) < 3 {
+			// never below the block that registered the alias (chain[1]): without it a tx under the name is
+			// legitimately refused and the model would have to follow name ownership too
+			if len(chain) < 4 {
 				continue
 			}
 			d := 1 + r.Intn(2)
-			if d > len(chain)-1 {
-				d = len(chain) - 1
+			if d > len(chain)-2 {
+				d = len(chain) - 2
 			}
 			b, _, err := w.Node(fmt.Sprintf("b%d", step), func(cfg *rig.NodeConfig) { cfg.Mempool = "recorder" })
 			if err != nil {
@@ -389,7 +391,7 @@ func sequential(c *vf.Ctx, si int) {
 			}
 			for _, tx := range returned {
 				for a := 0; a < nacct; a++ {
-					if bytes.Equal(tx.Body.Account, w.Accts[a].Addr) {
+					if bytes.Equal(tx.Body.Account, w.Accts[a].Addr) || (a == named && string(tx.Body.Account) == alias) {
 						if _, busy := model[a][tx.Body.Nonce]; !busy && tx.Body.Nonce > state[a] {
 							model[a][tx.Body.Nonce] = &mtx{a, tx.Body.Nonce, tx}
 						}
